@@ -511,8 +511,82 @@ pub fn c11(args: &Args) -> Acc {
     total
 }
 
+thread_local! {
+    /// timeline the zero-sized reset pin below reports to (set for the duration of one init)
+    static ZST_TL: std::cell::RefCell<Option<Tl>> = const { std::cell::RefCell::new(None) };
+}
+/// A reset pin type without any data, like the type-state pins of most HALs
+/// (`PA3<Output<PushPull>>` is zero-sized): the driver must treat it as the real pin it is.
+struct ZstResetPin;
+impl embedded_hal::digital::ErrorType for ZstResetPin {
+    type Error = crate::hal::Fault;
+}
+impl embedded_hal::digital::OutputPin for ZstResetPin {
+    fn set_low(&mut self) -> Result<(), Self::Error> {
+        ZST_TL.with(|t| {
+            let tl = t.borrow().clone().expect("timeline set");
+            let mut p = std::mem::ManuallyDrop::new(tl.pin(crate::hal::Src::Rst));
+            embedded_hal::digital::OutputPin::set_low(&mut *p)
+        })
+    }
+    fn set_high(&mut self) -> Result<(), Self::Error> {
+        ZST_TL.with(|t| {
+            let tl = t.borrow().clone().expect("timeline set");
+            let mut p = std::mem::ManuallyDrop::new(tl.pin(crate::hal::Src::Rst));
+            embedded_hal::digital::OutputPin::set_high(&mut *p)
+        })
+    }
+}
+
+/// init of a few models with the zero-sized reset pin, judged by the same reset automaton
+fn c17_zero_sized_pin(a: &mut Acc) {
+    use crate::hal::{KP8, KSerial, L1};
+    use mipidsi::models;
+    fn one<M: mipidsi::models::Model, DI: mipidsi::interface::Interface>(a: &mut Acc, name: &str, model: M, tl: &Tl, di: DI, fb: (u32, u32))
+    where
+        M::ColorFormat: mipidsi::interface::InterfacePixelFormat<DI::Word>,
+    {
+        ZST_TL.with(|t| *t.borrow_mut() = Some(tl.clone()));
+        tl.begin_call(200_000, None);
+        let mut delay = tl.delay();
+        let r = crate::rig::guarded(|| mipidsi::Builder::new(model, di).reset_pin(ZstResetPin).init(&mut delay).map(|_| ()).map_err(|_| ()));
+        tl.end_call();
+        ZST_TL.with(|t| *t.borrow_mut() = None);
+        let mut panel = crate::panel::Panel::new(fb.0, fb.1, 8, (0, 0, fb.0, fb.1));
+        for ev in tl.take_bus() {
+            panel.feed(ev);
+        }
+        panel.quiesce();
+        let log = panel.take_log();
+        a.case(&format!("zero-sized-reset-pin/{}", name), true);
+        a.count("inits_with_a_zero_sized_reset_pin_type", 1);
+        let case = J::obj().with("model", name).with("reset_pin", "a zero-sized pin type");
+        match r {
+            Ok(Ok(())) => {
+                if let Err((sig, detail)) = reset_monitor(&log, true) {
+                    a.violate("zero-sized-pin", 0, format!("{}/reset-pin[zero-sized type]", sig), detail, case);
+                }
+            }
+            other => a.violate("zero-sized-pin", 0, "init-failed[zero-sized reset pin]", format!("{:?}", other.map(|_| ())), case),
+        }
+    }
+    let tl = Tl::new(8);
+    one(a, "ST7789", models::ST7789, &tl, L1::<u8, KSerial>::new(&tl), (240, 320));
+    let tl = Tl::new(8);
+    one(a, "ILI9341Rgb565", models::ILI9341Rgb565, &tl, L1::<u8, KP8>::new(&tl), (240, 320));
+    let tl = Tl::new(8);
+    one(a, "GC9A01", models::GC9A01, &tl, L1::<u8, KSerial>::new(&tl), (240, 240));
+    let tl = Tl::new(8);
+    one(a, "ILI9488Rgb666", models::ILI9488Rgb666, &tl, L1::<u8, KP8>::new(&tl), (320, 480));
+}
+
 pub fn c17(args: &Args) -> Acc {
     let mut total = Acc::new();
+    if args.case.is_none() || args.stage.as_deref() == Some("zero-sized-pin") {
+        let mut a = Acc::new();
+        c17_zero_sized_pin(&mut a);
+        total.merge(a);
+    }
     let mut combos: Vec<(ModelId, Tr)> = Vec::new();
     for m in crate::rig::builtin().iter().chain(EXTERNAL.iter()) {
         for t in ALL_TR {
@@ -554,6 +628,43 @@ pub fn c17(args: &Args) -> Acc {
         }
         a.seen("model_transport_rst", format!("{}/{}/{}", m.name(), t.name(), cfg.rst));
         a.case(&format!("{:?}", cfg), true);
+        // with a reset pin, also when some operation of init fails: still no software reset on the
+        // bus, nothing on the bus at all when the pin itself failed, and once the pulse is over
+        // the pin stays high (a failed init must not park the controller in reset)
+        if cfg.rst && idx % 4 == 2 {
+            for k in [0u64, 1, 2, 3, 4, 6, 9, 14, 22, 35, 57, 92] {
+                for eff in [crate::hal::Effect::NoEffect, crate::hal::Effect::TookEffect] {
+                    let opened = Session::open_with(&cfg, Some(k), eff, false);
+                    if let Opened::Ready(s) = &opened {
+                        // init carried on after the failure (reporting it is C12's business): it
+                        // must still not have replaced the hardware reset by a software reset
+                        if s.tl.0.borrow().faulted.is_some() && s.init_log.iter().any(|e| matches!(e, PEv::Cmd { op: 0x01, page: 0, .. })) {
+                            a.violate("main", idx, "failed-init/soft-reset-with-reset-pin", "a software reset was sent although a reset pin is configured".to_string(), cfg.to_json().with("fail_op", k).with("effect", format!("{:?}", eff)));
+                            return;
+                        }
+                    }
+                    if let Opened::Failed { tl, panel, .. } = opened {
+                        let t = tl.0.borrow();
+                        let Some(f) = t.faulted else { continue };
+                        a.count("failed_inits_with_reset_pin_checked", 1);
+                        let cj = || cfg.to_json().with("fail_op", k).with("effect", format!("{:?}", eff)).with("failed", format!("{:?}", f.src));
+                        if panel.op_hist[0x01] > 0 {
+                            a.violate("main", idx, "failed-init/soft-reset-with-reset-pin", "a software reset was sent although a reset pin is configured".to_string(), cj());
+                            return;
+                        }
+                        if f.src == crate::hal::Src::Rst {
+                            if panel.cmds > 0 {
+                                a.violate("main", idx, "failed-init/bus-traffic-after-reset-pin-failure", format!("{} commands on the bus although the reset pin failed", panel.cmds), cj());
+                                return;
+                            }
+                        } else if t.rst != Some(true) {
+                            a.violate("main", idx, "failed-init/reset-pin-not-left-high", format!("reset pin level {:?} when the failed init returned", t.rst), cj());
+                            return;
+                        }
+                    }
+                }
+            }
+        }
         match Session::open(&cfg) {
             Opened::Failed { init, .. } => a.violate("main", idx, "init-failed", format!("{:?}", init), cfg.to_json()),
             Opened::Ready(s) => {
